@@ -13,6 +13,8 @@ for d in "$@"; do
   echo "suite: $suite"
   mkdir -p $out
   echo "checks:"
-  /verif/bin/mqverify -property all -repo $w -verif /verif -outdir $out -nocanary 2>&1 | grep -E "^VIOLATION|^  (VIOLATED|UNDECIDED)" | cut -c1-300 | awk '/^VIOLATION/ {print; n=0; next} { n++; if (n<=3) print; else if (n==4) print "  ..." }'
+  /verif/bin/mqverify -property all -repo $w -verif /verif -outdir $out -nocanary > $out/log.txt 2>&1; rc=$?
+  grep -E "^VIOLATION|^  (VIOLATED|UNDECIDED)" $out/log.txt | cut -c1-300 | awk '/^VIOLATION/ {print; n=0; next} { n++; if (n<=3) print; else if (n==4) print "  ..." }'
+  if [ $rc -gt 1 ] || [ $(grep -c "^C[0-9][0-9] " $out/log.txt) -ne 19 ]; then echo "VIOLATION checker did not complete (exit $rc): $(grep -m1 -E "panic|fatal error" $out/log.txt)"; fi
 done
 git -C /repo worktree remove --force $w 2>/dev/null; rm -rf $w $out
